@@ -12,6 +12,8 @@ Decided (structural, necessary conditions; DESIGN.md section 5 / C10):
          OK_SCAN_CONTINUE) or a fresh, validated lookup of the layer's link in the upper layers found it gone
          (iscan_findnext: null result of a link-resolving descent); a stale version flag of the *saved* layer root is
          not such evidence (root split / interior root collapse leave the layer populated)
+  R-END0  the cursor reports the end of the scan from its stale-root handling only for an empty tree (saved root
+         flagged deleted and still the published root)
   R-BACK  the neighbour's back link is tested after the neighbour's version snapshot, on every path to the hand-over
   R-CACHE  a local that only mirrors the saved state of the current stack element (never written back) and is
          changed to the child's value is read by nothing but the push of the child element until it is re-read
@@ -881,6 +883,63 @@ def rule_back(S):
     S.require('R-BACK', 'hand-over sites', len(sites), 1)
 
 
+def rule_end0(S):
+    """R-END0: `return OK_SCAN_END` out of the stale-root handling of iscan_findnext."""
+    facts = S.facts()
+    S.rule('R-END0', 'iscan_findnext: a `return OK_SCAN_END` reached after re-reading the tree root pointer (stale saved '
+                     'root, layer 0) requires the version of the saved root to be established deleted on that path: a '
+                     'deleted root that is still the published root is the empty tree; a root that merely lost its root '
+                     'flag is in the middle of a root split and the tree is full of keys')
+    f = facts.one(Y + 'iscan_findnext')
+    rvs = {v['id'] for n in f.all_nodes() if n['k'] == 'DeclStmt' for v in n.get('vars', [])
+           if 'init' in v and 'node_version64_body' in v['type'] and
+           any(is_call(x, cq=occ.STABLE) for x in f.walk(f.node(v['init'])))}
+    sites = {}
+    seen = {'reload': 0}
+
+    def step(ctx, nd, st):
+        reload_, deleted = st
+        if nd['k'] == 'DeclStmt' and any(v['id'] in rvs for v in nd.get('vars', [])):
+            return (False, '?')
+        if is_call(nd, cq=Y + 'tree_instance::load_root_ptr'):
+            seen['reload'] += 1
+            return (True, deleted)
+        if is_call(nd, cq=Y + 'find_border'):
+            return (False, '?')
+        if nd['k'] == 'ReturnStmt':
+            if R.ret_const(f, nd) == Y + 'status::OK_SCAN_END' and reload_:
+                e = sites.setdefault('return OK_SCAN_END at ' + short_loc(nd), {'ok': True, 'loc': short_loc(nd), 'path': None})
+                if deleted != 'T':
+                    e['ok'] = False
+                    e['path'] = e['path'] or ctx.witness()
+            return None
+        return st
+
+    def branch(ctx, blk, idx, st):
+        reload_, deleted = st
+        t = blk.term
+        if t and 'cond' in t and len(blk.succ) == 2:
+            c = f.strip(f.node(t['cond']))
+            flip = False
+            while c is not None and c['k'] == 'UnaryOperator' and c.get('op') == '!':
+                flip = not flip
+                c = f.strip(f.ch(c)[0])
+            if c is not None and c['k'] in CALL_KINDS and c.get('cn') == 'get_deleted' and \
+                    root_var(f, call_recv(f, c)) in rvs:
+                truth = (idx == 0) != flip
+                return (reload_, 'T' if truth else 'F')
+        return st
+
+    Explorer(f, step, branch).run((False, '?'))
+    S.require('R-END0', 'root-pointer reloads in iscan_findnext', seen['reload'], 1)
+    for site, e in sorted(sites.items()):
+        S.ob('R-END0', f.qname, site, e['ok'], 'only for a deleted (empty) root' if e['ok'] else
+             'the scan is reported finished although the saved root is not established deleted: during a root split '
+             '(root flag cleared, root pointer not yet replaced) the cursor stops with most of the interval undelivered',
+             loc=e['loc'], path=e['path'])
+    S.require('R-END0', 'scan-end returns of the stale-root handling', len(sites), 1)
+
+
 def rule_eq(S):
     """iscan_check_retry: the cursor's validation primitive (sibling of scan_check_retry, C06 R-EQ)."""
     facts = S.facts()
@@ -961,6 +1020,7 @@ def run(S):
     rule_res(S)
     rule_layer(S)
     rule_lroot(S)
+    rule_end0(S)
     rule_back(S)
     from checks.C01 import snap_rule
     S.rule('R-SNAP', 'iscan_findnext: every rank / count lookup uses the local permutation snapshot (shared with C04)')
